@@ -16,6 +16,13 @@ rewrites a fixed list of spellings into the one the rules know.  Every rewriting
 Rewritings (E = expression, S = statement):
   E  not not a -> a (in a boolean context only);  not (a or b) -> not a and not b;  not (a and b) -> not a or not b;
      not (x OP y) -> x COMPLEMENT(OP) y  for  == != is 'is not' in 'not in' < <= > >=   (single operator)
+  E  truth of xs[n:] -> len(xs) > n;  truth of S & {x} -> x in S;  len(x) > 0 / != 0 / >= 1 -> x and len(x) == 0 -> not x (truth context)
+  E  s.count(c) == len(s) -> not s.strip(c)                              (c one character)
+  E  True if c else False -> c;  False if c else True -> not c           (c a bool)
+  E  super(Cls, self) -> super()   (inside a method of Cls whose first parameter is self);  *(x,) -> *[x]
+  E  list(map(lambda x: E, xs)) -> [E for x in xs]
+  E  re.compile(P).sub(..) -> re.sub(P, ..)   (and match, search, ...);  Cls.m(Cls(a), b) -> Cls(a).m(b)
+  E  [f(X[i]) for i in range(len(X))] -> [f(x) for x in X]                (i read only as X[i])
   E  b if not c else a -> a if c else b;  likewise for the tests  !=  is not  not in  <=  <   (their complement, arms swapped)
   E  x == p or x == q  /  p == x or q == x  ->  x in (p, q)           (the same operand text in every disjunct; evaluated once
                                                                         and eagerly: every operand must be a name or a
@@ -34,6 +41,9 @@ Rewritings (E = expression, S = statement):
      list(filter(lambda i: c, xs)) -> [i for i in xs if c]
   E  {*xs} -> set(xs);  (a,) + b  ->  (a, *b)                            (b must be a tuple for the original to succeed)
   E  d.keys() as the iterable of a for loop / comprehension -> d
+  S  t = self.a.b (bound once, read only, nothing after it calls a method of `self` itself, passes `self` on or assigns self.a /
+     self.a.b) -> the binding is dropped and every read of t becomes self.a.b          (the root is `self` or a parameter)
+  S  return A if c else B -> if c: return A / return B;  if c: pass else: B -> if not c: B;  an else branch of only `pass` is dropped
   S  x = A if c else x -> if c: x = A;  x = x if c else A -> if not c: x = A
   S  x = x + 'text' -> x += 'text'                                       (the right operand is a str constant or f-string)
   S  a, b = x, y -> a = x; b = y                                         (names / attribute chains / constants; no later value is an
@@ -73,6 +83,8 @@ class Canon(ast.NodeTransformer):
     def __init__(self):
         self.changes: List[str] = []
         self._list_tables: frozenset = frozenset()
+        self._class_stack: List[str] = []
+        self._self_stack: List[Optional[str]] = []
 
     def _note(self, what: str, node: ast.AST):
         self.changes.append(f"{getattr(node, 'lineno', 0)}: {what}")
@@ -139,6 +151,31 @@ class Canon(ast.NodeTransformer):
 
     def _truth(self, e: ast.AST) -> ast.AST:
         """Normal form of an expression of which only the truth value is used."""
+        # xs[n:] is non-empty exactly when len(xs) > n
+        if isinstance(e, ast.Subscript) and isinstance(e.slice, ast.Slice) and e.slice.upper is None and e.slice.step is None \
+                and isinstance(e.slice.lower, ast.Constant) and isinstance(e.slice.lower.value, int) and e.slice.lower.value >= 0 \
+                and _simple_operand(e.value):
+            self._note("truth of xs[n:] -> len(xs) > n", e)
+            return _at(ast.Compare(left=ast.Call(func=ast.Name(id="len", ctx=ast.Load()), args=[e.value], keywords=[]), ops=[ast.Gt()],
+                                   comparators=[ast.Constant(value=e.slice.lower.value)]), e)
+        # S & {x} / {x} & S is non-empty exactly when x in S
+        if isinstance(e, ast.BinOp) and isinstance(e.op, ast.BitAnd):
+            for one, other in ((e.left, e.right), (e.right, e.left)):
+                if isinstance(one, ast.Set) and len(one.elts) == 1 and not isinstance(one.elts[0], ast.Starred) and _simple_operand(other) \
+                        and not isinstance(other, ast.Constant):
+                    self._note("truth of S & {x} -> x in S", e)
+                    return _at(ast.Compare(left=one.elts[0], ops=[ast.In()], comparators=[other]), e)
+        # len(x) > 0 / len(x) != 0 / len(x) >= 1 -> x ;  len(x) == 0 -> not x     (anything with a length: truth value is len != 0)
+        if isinstance(e, ast.Compare) and len(e.ops) == 1 and isinstance(e.left, ast.Call) and isinstance(e.left.func, ast.Name) \
+                and e.left.func.id == "len" and len(e.left.args) == 1 and not e.left.keywords and isinstance(e.comparators[0], ast.Constant) \
+                and _simple_operand(e.left.args[0]) and not isinstance(e.left.args[0], ast.Constant):
+            c, op = e.comparators[0].value, type(e.ops[0])
+            if (op in (ast.Gt, ast.NotEq) and c == 0) or (op is ast.GtE and c == 1):
+                self._note("len(x) > 0 -> x (truth context)", e)
+                return e.left.args[0]
+            if (op is ast.Eq and c == 0) or (op is ast.Lt and c == 1):
+                self._note("len(x) == 0 -> not x (truth context)", e)
+                return _at(ast.UnaryOp(op=ast.Not(), operand=e.left.args[0]), e)
         if isinstance(e, ast.UnaryOp) and isinstance(e.op, ast.Not):
             n = self._neg(e.operand, True)
             if n is not None:
@@ -153,6 +190,22 @@ class Canon(ast.NodeTransformer):
     def visit_If(self, node: ast.If):
         self.generic_visit(node)
         node.test = self._truth(node.test)
+        # if c: pass else: B  ->  if not c: B
+        if node.orelse and all(isinstance(b, ast.Pass) for b in node.body):
+            self._note("pass-only branch: condition negated", node)
+            node.test = self._truth(_at(ast.UnaryOp(op=ast.Not(), operand=node.test), node.test))
+            node.body, node.orelse = node.orelse, []
+        elif node.orelse and all(isinstance(b, ast.Pass) for b in node.orelse):
+            node.orelse = []
+        return node
+
+    def visit_Return(self, node: ast.Return):
+        self.generic_visit(node)
+        # return A if c else B  ->  if c: return A / return B
+        if isinstance(node.value, ast.IfExp):
+            self._note("return of a conditional expression -> guarded return", node)
+            v = node.value
+            return [_at(ast.If(test=v.test, body=[_at(ast.Return(value=v.body), node)], orelse=[]), node), _at(ast.Return(value=v.orelse), node)]
         return node
 
     def visit_While(self, node: ast.While):
@@ -165,6 +218,14 @@ class Canon(ast.NodeTransformer):
     def visit_IfExp(self, node: ast.IfExp):
         self.generic_visit(node)
         node.test = self._truth(node.test)
+        # True if c else False -> c ;  False if c else True -> not c      (c is a bool already)
+        if isinstance(node.body, ast.Constant) and isinstance(node.orelse, ast.Constant) and isinstance(node.body.value, bool) \
+                and isinstance(node.orelse.value, bool) and node.body.value != node.orelse.value and self._is_bool(node.test):
+            self._note("conditional expression choosing between the bool constants -> its test", node)
+            if node.body.value:
+                return node.test
+            n = self._neg(node.test, False)
+            return _at(n if n is not None else ast.UnaryOp(op=ast.Not(), operand=node.test), node)
         # a negative test (not x, !=, is not, not in, <=, <) -> its positive complement with the arms swapped
         t = node.test
         if (isinstance(t, ast.UnaryOp) and isinstance(t.op, ast.Not)) or (
@@ -178,6 +239,22 @@ class Canon(ast.NodeTransformer):
     def visit_Assert(self, node: ast.Assert):
         self.generic_visit(node)
         node.test = self._truth(node.test)
+        return node
+
+    def visit_Compare(self, node: ast.Compare):
+        self.generic_visit(node)
+        # s.count(c) == len(s)  ->  not s.strip(c)       (c one character: every character of s is c)
+        if len(node.ops) == 1 and isinstance(node.ops[0], (ast.Eq, ast.NotEq)):
+            for a, b in ((node.left, node.comparators[0]), (node.comparators[0], node.left)):
+                if isinstance(a, ast.Call) and isinstance(a.func, ast.Attribute) and a.func.attr == "count" and len(a.args) == 1 and not a.keywords \
+                        and isinstance(a.args[0], ast.Constant) and isinstance(a.args[0].value, str) and len(a.args[0].value) == 1 \
+                        and isinstance(b, ast.Call) and isinstance(b.func, ast.Name) and b.func.id == "len" and len(b.args) == 1 \
+                        and _simple_operand(a.func.value) and ast.dump(b.args[0]) == ast.dump(a.func.value):
+                    self._note("s.count(c) == len(s) -> not s.strip(c)", node)
+                    stripped = ast.Call(func=ast.Attribute(value=a.func.value, attr="strip", ctx=ast.Load()), args=[a.args[0]], keywords=[])
+                    if isinstance(node.ops[0], ast.Eq):
+                        return _at(ast.UnaryOp(op=ast.Not(), operand=stripped), node)
+                    return _at(ast.Call(func=ast.Name(id="bool", ctx=ast.Load()), args=[stripped], keywords=[]), node)
         return node
 
     def visit_BoolOp(self, node: ast.BoolOp):
@@ -257,6 +334,19 @@ class Canon(ast.NodeTransformer):
                 if ok:
                     self._note("str.format -> f-string", node)
                     return _at(ast.JoinedStr(values=vals), node)
+        # re.compile(P).sub(..) -> re.sub(P, ..)
+        if isinstance(f, ast.Attribute) and f.attr in ("sub", "subn", "match", "fullmatch", "search", "split", "findall", "finditer") \
+                and isinstance(f.value, ast.Call) and ast.unparse(f.value.func) == "re.compile" and len(f.value.args) == 1 and not f.value.keywords \
+                and not node.keywords:
+            self._note("re.compile(P).m(..) -> re.m(P, ..)", node)
+            return _at(ast.Call(func=ast.Attribute(value=f.value.func.value, attr=f.attr, ctx=ast.Load()), args=[f.value.args[0]] + list(node.args),
+                                keywords=[]), node)
+        # Cls.method(Cls(a), b) -> Cls(a).method(b)         (a plain method called through its class on a fresh instance)
+        if isinstance(f, ast.Attribute) and isinstance(f.value, ast.Name) and f.value.id[:1].isupper() and node.args \
+                and isinstance(node.args[0], ast.Call) and isinstance(node.args[0].func, ast.Name) and node.args[0].func.id == f.value.id \
+                and not f.attr.startswith("__"):
+            self._note("Cls.m(Cls(..), ..) -> Cls(..).m(..)", node)
+            return _at(ast.Call(func=ast.Attribute(value=node.args[0], attr=f.attr, ctx=ast.Load()), args=list(node.args[1:]), keywords=node.keywords), node)
         # B.join(X.split(A)) -> X.replace(A, B)      (A a non-empty constant: split on an explicit separator, no limit)
         if isinstance(f, ast.Attribute) and f.attr == "join" and len(node.args) == 1 and not node.keywords and isinstance(node.args[0], ast.Call) \
                 and isinstance(node.args[0].func, ast.Attribute) and node.args[0].func.attr == "split" and len(node.args[0].args) == 1 \
@@ -286,6 +376,11 @@ class Canon(ast.NodeTransformer):
             for e in node.args[0].elts[1:]:
                 acc = _at(ast.BinOp(left=acc, op=ast.Add(), right=e), node)
             return acc
+        if isinstance(f, ast.Name) and f.id == "super" and len(node.args) == 2 and not node.keywords and self._class_stack and self._self_stack \
+                and isinstance(node.args[0], ast.Name) and node.args[0].id == self._class_stack[-1] \
+                and isinstance(node.args[1], ast.Name) and node.args[1].id == self._self_stack[-1]:
+            self._note("super(Cls, self) -> super()", node)
+            return _at(ast.Call(func=f, args=[], keywords=[]), node)
         if isinstance(f, ast.Name) and not any(isinstance(a, ast.Starred) for a in node.args):
             if f.id == "getattr" and len(node.args) == 2 and not node.keywords and isinstance(node.args[1], ast.Constant) \
                     and isinstance(node.args[1].value, str) and _IDENT.match(node.args[1].value):
@@ -304,6 +399,13 @@ class Canon(ast.NodeTransformer):
                     call = ast.Call(func=inner.args[0], args=[ast.Name(id=var, ctx=ast.Load())], keywords=[])
                     return _at(ast.ListComp(elt=call, generators=[ast.comprehension(target=ast.Name(id=var, ctx=ast.Store()), iter=inner.args[1],
                                                                                      ifs=[], is_async=0)]), node)
+                if inner.func.id == "map" and len(inner.args) == 2 and isinstance(inner.args[0], ast.Lambda) \
+                        and len(inner.args[0].args.args) == 1 and not inner.args[0].args.defaults and not inner.args[0].args.vararg \
+                        and not inner.args[0].args.kwonlyargs and not inner.args[0].args.kwarg:
+                    lam = inner.args[0]
+                    self._note("list(map(lambda x: E, xs)) -> comprehension", node)
+                    return _at(ast.ListComp(elt=lam.body, generators=[ast.comprehension(target=ast.Name(id=lam.args.args[0].arg, ctx=ast.Store()),
+                                                                                      iter=inner.args[1], ifs=[], is_async=0)]), node)
                 if inner.func.id == "filter" and len(inner.args) == 2 and isinstance(inner.args[0], ast.Lambda) \
                         and len(inner.args[0].args.args) == 1 and not inner.args[0].args.defaults:
                     lam = inner.args[0]
@@ -330,6 +432,50 @@ class Canon(ast.NodeTransformer):
         node.iter = self._iter_keys(node.iter)
         node.ifs = [self._truth(c) for c in node.ifs]
         return node
+
+    def _index_loop(self, comp):
+        """[f(X[i]) for i in range(len(X))] -> [f(_x) for _x in X]   (one generator, i read only as X[i], X a name)"""
+        if len(comp.generators) != 1:
+            return comp
+        g = comp.generators[0]
+        it = g.iter
+        if not (isinstance(g.target, ast.Name) and isinstance(it, ast.Call) and isinstance(it.func, ast.Name) and it.func.id == "range"
+                and len(it.args) == 1 and isinstance(it.args[0], ast.Call) and isinstance(it.args[0].func, ast.Name) and it.args[0].func.id == "len"
+                and len(it.args[0].args) == 1 and isinstance(it.args[0].args[0], ast.Name)):
+            return comp
+        i, xs = g.target.id, it.args[0].args[0].id
+        parts = ([comp.elt] if hasattr(comp, "elt") else [comp.key, comp.value]) + list(g.ifs)
+        uses = [n for p_ in parts for n in ast.walk(p_) if isinstance(n, ast.Name) and n.id == i]
+        subs = [n for p_ in parts for n in ast.walk(p_) if isinstance(n, ast.Subscript) and isinstance(n.value, ast.Name) and n.value.id == xs
+                and isinstance(n.slice, ast.Name) and n.slice.id == i and isinstance(n.ctx, ast.Load)]
+        if not uses or len(uses) != len(subs):
+            return comp
+        self._note("comprehension over range(len(X)) -> over X", comp)
+
+        class _Sub(ast.NodeTransformer):
+            def visit_Subscript(self_, n):
+                if n in subs:
+                    return _at(ast.Name(id="_x", ctx=ast.Load()), n)
+                return self_.generic_visit(n)
+        for attr in ("elt", "key", "value"):
+            if hasattr(comp, attr):
+                setattr(comp, attr, _Sub().visit(getattr(comp, attr)))
+        g.ifs = [_Sub().visit(c) for c in g.ifs]
+        g.target = _at(ast.Name(id="_x", ctx=ast.Store()), g.target)
+        g.iter = it.args[0].args[0]
+        return comp
+
+    def visit_ListComp(self, node):
+        self.generic_visit(node)
+        return self._index_loop(node)
+
+    def visit_GeneratorExp(self, node):
+        self.generic_visit(node)
+        return self._index_loop(node)
+
+    def visit_SetComp(self, node):
+        self.generic_visit(node)
+        return self._index_loop(node)
 
     # -- statements ----------------------------------------------------------------------------------------------------------
     def visit_Assign(self, node: ast.Assign):
@@ -374,7 +520,11 @@ class Canon(ast.NodeTransformer):
         v = node.value
         if isinstance(v, ast.Call) and isinstance(v.func, ast.Attribute):
             recv = v.func.value
-            if v.func.attr == "update" and _simple_operand(recv) and not isinstance(recv, ast.Constant):
+            one_pair = (len(v.args) == 1 and not v.keywords and isinstance(v.args[0], ast.Dict) and len(v.args[0].keys) == 1) or \
+                (not v.args and len(v.keywords) == 1)
+            simple_sub = isinstance(recv, ast.Subscript) and _simple_operand(recv.value) and not isinstance(recv.value, ast.Constant) \
+                and _simple_operand(recv.slice) and one_pair            # X[k].update({a: b}) -> X[k][a] = b   (X[k] is read once either way)
+            if v.func.attr == "update" and ((_simple_operand(recv) and not isinstance(recv, ast.Constant)) or simple_sub):
                 pairs = None
                 if len(v.args) == 1 and not v.keywords and isinstance(v.args[0], ast.Dict) and v.args[0].keys and all(k is not None for k in v.args[0].keys):
                     pairs = list(zip(v.args[0].keys, v.args[0].values))
@@ -394,7 +544,39 @@ class Canon(ast.NodeTransformer):
             return _at(ast.Assign(targets=[ast.Attribute(value=v.args[0], attr=v.args[1].value, ctx=ast.Store())], value=v.args[2]), node)
         return node
 
+    def visit_ClassDef(self, node: ast.ClassDef):
+        self._class_stack.append(node.name)
+        self._self_stack.append(None)
+        self.generic_visit(node)
+        self._class_stack.pop()
+        self._self_stack.pop()
+        return node
+
+    def visit_Starred(self, node: ast.Starred):
+        self.generic_visit(node)
+        # *(x,) / *(a if c else (x,)): what is unpacked may as well be a list display
+        def lists(e):
+            if isinstance(e, ast.Tuple) and isinstance(e.ctx, ast.Load):
+                self._note("tuple display under * -> list display", e)
+                return _at(ast.List(elts=e.elts, ctx=ast.Load()), e)
+            if isinstance(e, ast.IfExp):
+                e.body, e.orelse = lists(e.body), lists(e.orelse)
+            return e
+        if isinstance(node.ctx, ast.Load):
+            node.value = lists(node.value)
+        return node
+
     def visit_FunctionDef(self, node: ast.FunctionDef):
+        # the name the instance goes by (for super(Cls, self)): the first parameter of a function defined directly in a class
+        direct = bool(self._class_stack) and self._self_stack and self._self_stack[-1] is None
+        a0 = (node.args.posonlyargs + node.args.args)[:1]
+        self._self_stack.append(a0[0].arg if direct and a0 else "")      # not in nested functions: zero-argument super() needs the method's frame
+        try:
+            return self._visit_function(node)
+        finally:
+            self._self_stack.pop()
+
+    def _visit_function(self, node):
         # tables of lists (`X = defaultdict(list)` in this function): `X[k] += seq` is `X[k].extend(seq)`
         outer = self._list_tables
         self._list_tables = outer | {t.id for st in ast.walk(node) if isinstance(st, (ast.Assign, ast.AnnAssign)) and st.value is not None
@@ -404,7 +586,78 @@ class Canon(ast.NodeTransformer):
                                      for t in (st.targets if isinstance(st, ast.Assign) else [st.target]) if isinstance(t, ast.Name)}
         self.generic_visit(node)
         self._list_tables = outer
+        self._propagate_aliases(node)
         return node
+
+    visit_AsyncFunctionDef = visit_FunctionDef
+
+    # -- read-only aliases of attribute chains ---------------------------------------------------------------------------------
+    def _propagate_aliases(self, fn: ast.AST):
+        """`t = self.a.b` bound once, where nothing in the function can rebind `self.a` / `self.a.b` afterwards: every read of `t`
+        is a read of `self.a.b` (the same object), and the binding goes away."""
+        nested = [n for n in ast.walk(fn) if n is not fn and isinstance(n, (ast.FunctionDef, ast.AsyncFunctionDef, ast.Lambda, ast.ClassDef))]
+        in_nested = {id(x) for n in nested for x in ast.walk(n)}
+        own = [n for n in ast.walk(fn) if id(n) not in in_nested or n in nested]
+        a = fn.args
+        params = {x.arg for x in a.posonlyargs + a.args + a.kwonlyargs} | ({a.vararg.arg} if a.vararg else set()) | ({a.kwarg.arg} if a.kwarg else set())
+        stores: dict = {}
+        for n in own:
+            if isinstance(n, ast.Name) and isinstance(n.ctx, (ast.Store, ast.Del)):
+                stores[n.id] = stores.get(n.id, 0) + 1
+            if isinstance(n, (ast.Global, ast.Nonlocal)):
+                for nm in n.names:
+                    stores[nm] = 99
+        nested_names = {x.id for n in nested for x in ast.walk(n) if isinstance(x, ast.Name)}
+        attr_stores = {ast.unparse(n) for n in own if isinstance(n, ast.Attribute) and isinstance(n.ctx, (ast.Store, ast.Del))}
+        for st in list(own):
+            if not (isinstance(st, ast.Assign) and len(st.targets) == 1 and isinstance(st.targets[0], ast.Name) and isinstance(st.value, ast.Attribute)):
+                continue
+            x = st.targets[0].id
+            root = st.value
+            while isinstance(root, ast.Attribute):
+                root = root.value
+            if not isinstance(root, ast.Name) or x in params or stores.get(x) != 1 or x in nested_names:
+                continue
+            r = root.id
+            if not (r == "self" or r in params) or stores.get(r, 0) or r == x:
+                continue
+            chain = ast.unparse(st.value)
+            if any(chain == s_ or chain.startswith(s_ + ".") for s_ in attr_stores):
+                continue
+            if set(chain.split(".")[1:]) & set(getattr(self, "properties", ())):
+                continue                    # computed on access (a property somewhere in the package has this name)
+            # a call on the root itself (r.method(..)) or one that receives it could rebind the attribute
+            risky = False
+            for n in own:
+                if isinstance(n, ast.Call) and (getattr(n, "lineno", 0), getattr(n, "col_offset", 0)) > (st.lineno, st.col_offset):
+                    f_ = n.func
+                    if isinstance(f_, ast.Attribute) and isinstance(f_.value, ast.Name) and f_.value.id == r:
+                        risky = True
+                    if any(isinstance(a_, ast.Name) and a_.id == r for a_ in list(n.args) + [k.value for k in n.keywords]):
+                        risky = True
+            if risky:
+                continue
+            uses = [n for n in own if isinstance(n, ast.Name) and n.id == x and isinstance(n.ctx, ast.Load)]
+            if not uses:
+                continue
+            self._note(f"read-only alias `{x}` of `{chain}` resolved", st)
+
+            class _Sub(ast.NodeTransformer):
+                def visit_Name(self_, n):
+                    if n.id == x and isinstance(n.ctx, ast.Load) and id(n) not in in_nested:
+                        return _at(ast.parse(chain, mode="eval").body, n)
+                    return n
+            _Sub().visit(fn)
+            # drop the binding
+            for holder in ast.walk(fn):
+                for fld in ("body", "orelse", "finalbody"):
+                    blk = getattr(holder, fld, None)
+                    if isinstance(blk, list) and any(b is st for b in blk):
+                        i = next(k for k, b in enumerate(blk) if b is st)
+                        if len(blk) == 1:
+                            blk[i] = _at(ast.Pass(), st)
+                        else:
+                            del blk[i]
 
     def visit_AugAssign(self, node: ast.AugAssign):
         self.generic_visit(node)
@@ -431,9 +684,24 @@ class Canon(ast.NodeTransformer):
         return node
 
 
-def canonicalise(tree: ast.Module) -> List[str]:
+def property_names(trees) -> frozenset:
+    """Names defined as properties (or other descriptors computed on access) anywhere in the given modules: an attribute chain
+    through one of them is not a plain read, and no alias of it is resolved."""
+    out = set()
+    for t in trees:
+        for n in ast.walk(t):
+            if isinstance(n, (ast.FunctionDef, ast.AsyncFunctionDef)) and any(
+                    "property" in ast.unparse(d) or ast.unparse(d).endswith((".setter", ".getter")) for d in n.decorator_list):
+                out.add(n.name)
+            if isinstance(n, ast.Assign) and isinstance(n.value, ast.Call) and ast.unparse(n.value.func).split(".")[-1] == "property":
+                out |= {t_.id for t_ in n.targets if isinstance(t_, ast.Name)}
+    return frozenset(out)
+
+
+def canonicalise(tree: ast.Module, properties: frozenset = frozenset()) -> List[str]:
     """Rewrite `tree` in place; returns the list of rewritings applied (line: what)."""
     c = Canon()
+    c.properties = properties
     c.visit(tree)
     ast.fix_missing_locations(tree)
     return c.changes
